@@ -216,8 +216,50 @@ theorem c17_unguarded_delete_witness : ¬ c17_single_record_full ⟨true, true, 
   revert this
   decide
 
+/-! ### a termination decided before a session existed never closes it (C01 "keeps working", C17)
+
+`CloseSession` decides "no session left" in its locked part.  Before /repo's fix the record was retired only later, by
+`TerminateActiveUser`, after the lock had been released: a connection dispatched in between got a FRESH session in the
+record — healthy connection, open stream, data — which the termination then closed with "no session left" (found by the
+second red-team round; harness `c01stale.go`, schedule point `ActiveUser.CloseSession:beforeTerminate`).  Now the decision
+and the retirement are one step of the model (`Gen.Panel.closeSessionRetiresWhenEmpty`), and every admission that comes
+after the decision is told to look the user up again. -/
+
+theorem gen_close_retires : Gen.Panel.closeSessionRetiresWhenEmpty = true := by decide
+
+theorem c17_close_decision_blocks_admission (cfg : Panel.Cfg) (hc : cfg.checksRetired = true) (s : Panel.St) (rid sid : Nat)
+    (h : (Panel.closeLocked s rid sid).2 = some 0) (sid' key : Nat) (now : Int) :
+    (Panel.getSession cfg (Panel.closeLocked s rid sid).1 rid sid' key now).2 = .retired := by
+  unfold Panel.closeLocked at h ⊢
+  cases hr : s.recs[rid]? with
+  | none => rw [hr] at h; simp at h
+  | some r =>
+    rw [hr] at h
+    simp only [Option.some.injEq] at h
+    have hemp : (r.sessions.filter (fun e => e.1 != sid)).isEmpty = true := by
+      cases hf : r.sessions.filter (fun e => e.1 != sid) with
+      | nil => rfl
+      | cons a b => rw [hf] at h; simp at h
+    simp only
+    unfold Panel.getSession
+    simp only
+    rw [Panel.getElem?_set_eq' _ _ _ _ hr]
+    simp [hc, gen_close_retires, hemp]
+
+/-- the old shape, explicitly: with the retirement left to `TerminateActiveUser` the admission in the gap CREATES a
+session in the record whose termination has been decided, and the termination closes it -/
+def staleS0 : Panel.St := Panel.run Panel.repairedCfg Panel.init [.put 7 uinfo, .getUser 7 false 10, .getSession 0 1 100 10]
+/-- the locked part of `CloseSession` WITHOUT the retirement: session 1 removed, nothing else -/
+def staleS1 : Panel.St := { staleS0 with recs := staleS0.recs.map (fun r => { r with sessions := r.sessions.filter (fun e => e.1 != 1) }) }
+
+theorem c17_stale_termination_witness :
+    (Panel.getSession Panel.repairedCfg staleS1 0 2 200 10).2 = .created 200 ∧
+    ((Panel.run Panel.repairedCfg (Panel.getSession Panel.repairedCfg staleS1 0 2 200 10).1 [.retire 0, .closeAll 0]).recs.map (·.sessions)) = [[]] := by
+  decide
+
 end C17
 
 #print axioms C17.c17_no_deadlock
+#print axioms C17.c17_close_decision_blocks_admission
 #print axioms C17.c17_single_record
 #print axioms C17.pinned_deadlock_reachable
